@@ -77,6 +77,7 @@ func (k recKey) less(o recKey) bool {
 type rec struct {
 	expiry time.Time
 	tokens []string // tokens this face supplied while the record existed ("" = none)
+	nonce  uint32   // nonce of the latest Interest of this face that was recorded
 }
 
 // entry = one pending Interest in the PIT sense (name + selectors), aggregated over faces.
@@ -109,6 +110,13 @@ type ref struct {
 	// sends of the last arrival (what a backlogged face serialises later is judged against it)
 	allowed   map[uint64]map[string]bool
 	lastNonce map[string]uint32
+	// lastOwn: "face|name" -> nonce of the latest Interest that face sent for that name (whatever
+	// became of it): what an unchanged retransmission of that Interest carries (shape "rep")
+	lastOwn map[string]uint32
+	// deadOwn: "face|name" -> since when lastOwn's nonce is on the dead nonce list (canonical state)
+	deadOwn   map[string]time.Time
+	trackOwn  bool            // the alphabet has "rep" Interests: lastOwn is part of the state
+	dumpStale bool            // in.dump predates the arrival being judged (inside a burst)
 	seen      map[string]bool // name|nonce seen in an earlier Interest
 	deadSince map[string]time.Time
 	nonceCtr  uint32
@@ -145,7 +153,7 @@ func (r *ref) lapsed(e *entry, now time.Time) bool {
 }
 
 func newRef(cache bool) *ref {
-	return &ref{cache: cache, pend: map[recKey]*entry{}, issued: map[uint32]recKey{}, attached: map[uint32][]recKey{}, full: map[uint32][]byte{}, lastNonce: map[string]uint32{},
+	return &ref{cache: cache, pend: map[recKey]*entry{}, issued: map[uint32]recKey{}, attached: map[uint32][]recKey{}, full: map[uint32][]byte{}, lastNonce: map[string]uint32{}, lastOwn: map[string]uint32{}, deadOwn: map[string]time.Time{},
 		seen: map[string]bool{}, deadSince: map[string]time.Time{}, csWires: map[string]map[string]bool{}}
 }
 
@@ -214,13 +222,34 @@ func sendsStr(s []fwsim.Send) string {
 
 // ---- Interest arrival ----
 
-func (r *ref) onInterest(in *inst, o *iOp, nonce uint32, life time.Duration, tok []byte, sends []fwsim.Send, now time.Time) (v []report.Violation) {
+func ownKey(face uint64, name string) string { return fmt.Sprintf("%d|%s", face, name) }
+
+// onInterest: deadBefore = the (name, nonce) was on the dead nonce list just before the arrival
+// (white-box; "a nonce recorded as dead" in the words of C02).
+func (r *ref) onInterest(in *inst, o *iOp, nonce uint32, life time.Duration, tok []byte, sends []fwsim.Send, now time.Time, deadBefore bool) (v []report.Violation) {
 	k := recKey{o.name, o.cbp, o.mbf}
 	seenBefore := r.seen[fmt.Sprintf("%s|%d", o.name, nonce)]
 	r.seen[fmt.Sprintf("%s|%d", o.name, nonce)] = true
-	if !o.dup {
+	if !o.dup && !o.rep {
 		r.lastNonce[o.name] = nonce
 		delete(r.deadSince, o.name)
+	}
+	if ok := ownKey(o.face, o.name); r.lastOwn[ok] != nonce {
+		r.lastOwn[ok] = nonce
+		delete(r.deadOwn, ok)
+	}
+	// does ANOTHER face hold a pending Interest for this name that carries the same nonce? Then the
+	// arrival may be a loop ("repeating the nonce of one still pending from another face", C02)
+	otherHolds := false
+	for k2, e2 := range r.pend {
+		if k2.name != o.name {
+			continue
+		}
+		for f2, rc2 := range e2.recs {
+			if f2 != o.face && rc2.nonce == nonce {
+				otherHolds = true
+			}
+		}
 	}
 	var dataSends, intSends []fwsim.Send
 	for _, s := range sends {
@@ -302,17 +331,39 @@ func (r *ref) onInterest(in *inst, o *iOp, nonce uint32, life time.Duration, tok
 	}
 	e := r.pend[k]
 	accepted := true
-	if seenBefore {
-		// An Interest repeating a (name, nonce) seen before may be a loop / dead nonce: whether it
-		// is recorded is the forwarder's choice (C02 speaks about forwarding only). Adopt.
+	if seenBefore && (otherHolds || deadBefore) {
+		// An Interest repeating the nonce of one still pending from ANOTHER face, or a nonce recorded
+		// as dead, may be a loop: whether it is recorded is the forwarder's choice (C02 speaks about
+		// forwarding only). Adopt.
 		accepted = ir != nil && ir.Nonce == nonce && ir.ExpireIn == life
 		if accepted {
-			stats["repeated (name,nonce): recorded (adopted)"]++
+			stats["repeated (name,nonce), possibly looping: recorded (adopted)"]++
 		} else {
-			stats["repeated (name,nonce): dropped (adopted)"]++
+			stats["repeated (name,nonce), possibly looping: dropped (adopted)"]++
 		}
 	} else {
-		stats["interest arrivals that must become pending"]++
+		// A fresh nonce - or a nonce that only this face used, or that no face holds any more, and
+		// that is not recorded as dead: a retransmission, not a loop. The face holds a pending
+		// Interest from now until now + lifetime.
+		if seenBefore {
+			stats["repeated (name,nonce) that is no loop (own retransmission / nonce no longer held, not dead): must become pending"]++
+		} else {
+			stats["interest arrivals that must become pending"]++
+		}
+		if !r.dumpStale && (ir == nil || ir.ExpireIn < life) {
+			what, left := "Interest with a fresh nonce", "no in-record at all"
+			if seenBefore {
+				what = "retransmission repeating a nonce that no other face holds and that is not recorded as dead"
+			}
+			if ir != nil {
+				left = fmt.Sprintf("an in-record that expires in %s", ir.ExpireIn)
+			}
+			key := "Interest just received is not recorded with its lifetime: the PIT in-record of the arrival face is missing or expires earlier (white-box)"
+			if seenBefore {
+				key = "same-nonce retransmission is not recorded: the PIT in-record of the arrival face keeps the earlier, shorter deadline (white-box)"
+			}
+			v = append(v, viol("C01.each", key, fmt.Sprintf("%s %s from face %d with lifetime %s: afterwards the PIT holds %s for that face - the face holds a pending Interest until the lifetime of the Interest it sent last has elapsed, Data arriving after the in-record's end and before that moment would not be delivered", what, k, o.face, life, left)))
+		}
 	}
 	if accepted {
 		if e == nil {
@@ -325,6 +376,7 @@ func (r *ref) onInterest(in *inst, o *iOp, nonce uint32, life time.Duration, tok
 			e.recs[o.face] = rc
 		}
 		rc.expiry = now.Add(life)
+		rc.nonce = nonce
 		ts := string(tok)
 		found := false
 		for _, x := range rc.tokens {
@@ -734,6 +786,18 @@ func (r *ref) sync(in *inst) (v []report.Violation) {
 			}
 		} else {
 			delete(r.deadSince, n)
+		}
+	}
+	if r.trackOwn {
+		for ok, nonce := range r.lastOwn {
+			n := ok[strings.Index(ok, "|")+1:]
+			if in.sim.DnlHas(fwsim.Name(n), nonce) {
+				if _, was := r.deadOwn[ok]; !was {
+					r.deadOwn[ok] = now
+				}
+			} else {
+				delete(r.deadOwn, ok)
+			}
 		}
 	}
 	return
